@@ -16,6 +16,7 @@ GRID = {
     "int": ["-1", "0", "1", "2", "8", "9", "10", "11"],
     "Fl": ["Fl(-1.0)", "Fl(-0.5)", "Fl(0.0)", "Fl(0.5)", "Fl(1.0)", "Fl(math.NaN())"],
     "Str": ['Str("")', 'Str("a")', 'Str("ab")'],
+    "Code": ['Code("")', 'Code("a")'],
     "float64": ["-1.0", "-0.5", "0.0", "0.5", "1.0", "math.NaN()"],
     "string": ['""', '"a"', '"ab"', '"k=v"', '"A"'],
     "[]byte": ["nil", '[]byte("a")', '[]byte("ab")'],
@@ -60,6 +61,11 @@ var (
 // Fl and Str are defined types over float64 and string.
 type Fl float64
 type Str string
+
+// Code is a defined string type that formats through its Error method.
+type Code string
+
+func (c Code) Error() string { return "E" + string(c) }
 
 // T is a small struct with a method set.
 type T struct {
